@@ -26,8 +26,9 @@ def fw_error():
 def jobs(tier):
     W = ('handler error',)
     out = []
-    for kind in ('ValueError', 'Custom', 'TimeoutError'):
+    for kind in ('ValueError', 'Custom', 'TimeoutError', 'InnerTimeout'):
         out.append(mk('C11', f'errors/parent/{kind}', S.errors(kind, 'parent'), witnesses=W))
+    out.append(mk('C11', 'errors/awaited_child/InnerTimeout', S.errors('InnerTimeout', 'awaited_child'), witnesses=W))
     out += [
         mk('C11', 'errors/parent/sync', S.errors('ValueError', 'parent', sync=True), witnesses=W),
         mk('C11', 'errors/parent/ret_exc', S.errors('KeyError', 'parent', ret_exc=True), witnesses=W),
